@@ -45,6 +45,7 @@ RULE = ('E1 (Hypothesis): a frame of 2..24 rows with 1-3 geometry columns (7 kin
         'of the rows that intersect it) is present, and the bounds afterwards (_partition_bounds[col], ddf[col].partition_bounds) '
         'are the kept rows of the recorded bounds re-indexed from 0, for every column. '
         'Non-trivial: >= 2 loaded partitions and a box that keeps a proper subset (possibly none) of them. distinct = distinct cases.')
+RULE += (' Added after the seeded rounds: written datasets with a history: the path held another dataset before (removed or overwritten), or the frame written is a row filter of a frame carrying partition bounds.')
 ASSUMPTIONS = ['pyarrow decodes the stored elements (canonical form) correctly',
                'coordinates are finite (an extent is either fully defined or NaN)',
                'a NaN extent (no row, or only missing/empty geometries) overlaps no box',
